@@ -358,6 +358,11 @@ func CrudSupported(s ColSpec) bool {
 	if !CrudOK(s) {
 		return false
 	}
+	if s.OnDelete == "SET NULL" && !(s.TE.K == "ref" && (s.TE.Key == "sql.NullInt64" || s.TE.Key == "OptId")) {
+		// ON DELETE SET NULL on a NOT NULL column (plain int64 key): PostgreSQL accepts the schema, and what a
+		// delete then does depends on the firing order of the referential triggers; not a valid table struct
+		return false
+	}
 	if s.TE.K == "ref" {
 		switch s.TE.Key {
 		case "sub.Pair":
